@@ -11,7 +11,11 @@ Thorough == IOEnv.VERIF_TIER = "thorough"
 Seed     == atoi(IOEnv.VERIF_SEED)
 
 C3       == <<0, 1, 3>>
-NameCls  == <<"plain", "prefix", "long", "nonascii">>
+\* string classes: prefix = each name extends the previous one; rprefix = each LATER name is a proper prefix of an
+\* earlier one; substr = later names are inner substrings / suffixes of earlier ones (down to one character);
+\* dup = exact duplicates
+NameCls  == <<"plain", "prefix", "rprefix", "substr", "dup", "long", "nonascii">>
+NNameCls == Len(NameCls)
 RootDims == <<"ntex", "nmat", "ngrp", "nport", "npref", "nvbl", "nlight", "ndd", "nds">>
 
 LayoutCase == [kind |-> "layout", id |-> 0, elem |-> Elem, mohd_fields |-> MohdFields,
@@ -19,10 +23,14 @@ LayoutCase == [kind |-> "layout", id |-> 0, elem |-> Elem, mohd_fields |-> MohdF
                containers |-> [MOGP |-> MogpHdrSize],
                momt_tex1 |-> MomtTex1Off, momt_tex2 |-> MomtTex2Off, mogi_name |-> MogiNameOff, modd_name |-> ModdNameOff]
 
-Root(kind, v, to, cnt, sky, nm, xf) ==
+\* pvpat / vblpat: which inner lists (portal vertex lists, visible-block lists) are non-empty: bit j-1 set <=> list j
+\* has entries (npv resp. vbl of them); 7 = all non-empty, 0 = every inner list empty
+RootP(kind, v, to, cnt, sky, nm, xf, pvpat, vblpat) ==
     [kind |-> kind, id |-> 0, ver |-> v, to |-> to, ntex |-> cnt.ntex, nmat |-> cnt.nmat, ngrp |-> cnt.ngrp,
-     nport |-> cnt.nport, npv |-> 4, npref |-> cnt.npref, nvbl |-> cnt.nvbl, vbl |-> 3, nlight |-> cnt.nlight,
-     ndd |-> cnt.ndd, nds |-> cnt.nds, sky |-> sky, names |-> nm, xf |-> xf]
+     nport |-> cnt.nport, npv |-> 4, pvpat |-> pvpat, npref |-> cnt.npref, nvbl |-> cnt.nvbl, vbl |-> 3, vblpat |-> vblpat,
+     nlight |-> cnt.nlight, ndd |-> cnt.ndd, nds |-> cnt.nds, sky |-> sky, names |-> nm, xf |-> xf]
+Root(kind, v, to, cnt, sky, nm, xf) == RootP(kind, v, to, cnt, sky, nm, xf, 7, 7)
+RootX(pvpat, vblpat, kind, v, to, cnt, sky, nm, xf) == RootP(kind, v, to, cnt, sky, nm, xf, pvpat, vblpat)
 AllAt(c)        == [d \in {RootDims[j] : j \in 1..Len(RootDims)} |-> c]
 OnlyAt(d, c)    == [AllAt(0) EXCEPT ![d] = c]
 AllBut(d, c)    == [AllAt(c) EXCEPT ![d] = 0]
@@ -33,7 +41,13 @@ RootSlices ==
        {Root("root", v, 0, AllAt(c), IF c > 0 THEN 1 ELSE 0, "plain", 0) : v \in Versions, c \in {0, 1, 3}}
   \cup {Root("root", v, 0, OnlyAt(d, c), 0, "plain", 0) : v \in Versions, d \in DimSet, c \in {1, 3}}
   \cup {Root("root", v, 0, AllBut(d, 3), 1, "plain", 0) : v \in Versions, d \in DimSet}
-  \cup {Root("root", v, 0, AllAt(3), 1, NameCls[q], xf) : v \in Versions, q \in 1..4, xf \in {0, 1}}
+  \cup {Root("root", v, 0, AllAt(3), 1, NameCls[q], xf) : v \in Versions, q \in 1..NNameCls, xf \in {0, 1}}
+  \* only the string tables populated, every string class (offsets must resolve without help from other chunks)
+  \cup {Root("root", v, 0, [AllAt(0) EXCEPT !.ntex = c, !.ngrp = c, !.nmat = c], 0, NameCls[q], 0) : v \in {VClassic, VMop}, q \in 1..NNameCls, c \in {1, 3}}
+  \* lists of lists: an empty inner list at every position (all 8 patterns over three lists, both patterns over one)
+  \cup {RootP("root", v, 0, OnlyAt("nport", 3), 0, "plain", 0, pat, 7) : v \in Versions, pat \in 0..7}
+  \cup {RootP("root", v, 0, OnlyAt("nvbl", 3), 0, "plain", 0, 7, pat) : v \in Versions, pat \in 0..7}
+  \cup {RootP("root", v, 0, AllAt(c), 1, "plain", 0, pat, 7 - pat) : v \in {VClassic, VWotlk, VMop}, pat \in 0..7, c \in {1, 3}}
   \cup {Root("root", v, 0, AllAt(1), s, "prefix", 1) : v \in Versions, s \in {0, 1}}
   \cup (IF Thorough THEN {Root("root", v, 0, TwoAt(d1, d2, c), 0, "prefix", 0) : v \in Versions, d1 \in DimSet, d2 \in DimSet, c \in {1, 3}}
         ELSE {Root("root", VWotlk, 0, TwoAt(d1, d2, 3), 0, "plain", 0) : d1 \in {"nmat", "ntex", "ngrp"}, d2 \in DimSet})
@@ -44,11 +58,11 @@ Stream(v0, len) == FoldLeft(LAMBDA acc, j : Append(acc, Lcg(acc[Len(acc)])), <<L
 Start(salt, j)  == (Seed * 7919 + salt * 257 + j * 10007) % 65537
 RandRoot(j) ==
     LET r == Stream(Start(1, j), 16) IN
-    Root("root", 1 + (r[1] % 5), 0,
+    RootX(r[14] % 8, r[15] % 8, "root", 1 + (r[1] % 5), 0,
          [ntex |-> C3[1 + (r[2] % 3)], nmat |-> C3[1 + (r[3] % 3)], ngrp |-> C3[1 + (r[4] % 3)], nport |-> C3[1 + (r[5] % 3)],
           npref |-> C3[1 + (r[6] % 3)], nvbl |-> C3[1 + (r[7] % 3)], nlight |-> C3[1 + (r[8] % 3)], ndd |-> C3[1 + (r[9] % 3)],
           nds |-> C3[1 + (r[10] % 3)]],
-         r[11] % 2, NameCls[1 + (r[12] % 4)], r[13] % 2)
+         r[11] % 2, NameCls[1 + (r[12] % NNameCls)], r[13] % 2)
 NRandRoot == IF Thorough THEN 10000 ELSE 160
 
 \* ---- groups
@@ -74,15 +88,18 @@ RandGroup(j) ==
 NRandGroup == IF Thorough THEN 1200 ELSE 30
 
 \* ---- conversions: every (from, to) pair
+\* every (from, to) pair with every optional sub-structure populated (a parsed v17 file is a "Classic" object that may
+\* carry a skybox, so the skybox is populated for every source version), and without it
 RootConv ==
-       {Root("rootconv", a, b, AllAt(c), IF a >= VWotlk THEN 1 ELSE 0, "plain", 0) : a \in Versions, b \in Versions, c \in {1, 3}}
+       {Root("rootconv", a, b, AllAt(c), 1, "plain", 0) : a \in Versions, b \in Versions, c \in {1, 3}}
   \cup {Root("rootconv", a, b, AllAt(3), 0, "prefix", 1) : a \in Versions, b \in Versions}
+  \cup {RootP("rootconv", a, b, AllAt(1), 1, "rprefix", 0, 0, 0) : a \in Versions, b \in Versions}
 GroupConv ==
        {Group("groupconv", a, b, 3, 9, 3, 3, 3, 3, 4, 2, 3, 0) : a \in Versions, b \in Versions}
   \cup {Group("groupconv", a, b, 1, 3, 0, 0, -1, 1, -1, 1, -1, 1) : a \in Versions, b \in Versions}
 RandConv(j) ==
     LET r == RandRoot(j + 100000) q == Stream(Start(3, j), 3) IN
-    [r EXCEPT !.kind = "rootconv", !.to = 1 + (q[1] % 5), !.sky = IF r.ver >= VWotlk THEN r.sky ELSE 0]
+    [r EXCEPT !.kind = "rootconv", !.to = 1 + (q[1] % 5)]
 NRandConv == IF Thorough THEN 2000 ELSE 30
 
 Numbered(seq) == [j \in 1..Len(seq) |-> [seq[j] EXCEPT !.id = j]]
